@@ -21,6 +21,9 @@ def main():
     args = sys.argv[1:]
     only = args[args.index("--only") + 1] if "--only" in args else None
     update = "--update" in args
+    only_for = args[args.index("--for") + 1] if "--for" in args else None
+    json_out = args[args.index("--json") + 1] if "--json" in args else None
+    results = []
     m = json.load(open(os.path.join(VERIF, "MANIFEST.json")))
     props = [c["property_id"] for c in m["checks"]]
     missed = 0
@@ -29,12 +32,17 @@ def main():
         if only and name != only or not os.path.exists(os.path.join(d, "patch.diff")):
             continue
         meta = json.load(open(os.path.join(d, "meta.json")))
+        if only_for and meta["property"] != only_for:
+            continue
+        if only_for:
+            props = [only_for]
         wt = tempfile.mkdtemp(prefix="seedrun-")
         os.rmdir(wt)
         vd = tempfile.mkdtemp(prefix="seedverif-")
         try:
-            rc, o = run(["git", "-C", "/repo", "worktree", "add", "-q", "--detach", wt, "HEAD"])
-            assert rc == 0, o
+            # a scratch copy of /repo's current working tree (not a git worktree:
+            # nothing under /repo is touched)
+            shutil.copytree("/repo", wt, ignore=shutil.ignore_patterns(".git"))
             rc, o = run(["git", "apply", os.path.join(d, "patch.diff")], cwd=wt)
             assert rc == 0, o
             shutil.copy(os.path.join(VERIF, "KNOWN_FINDINGS.txt"), vd)
@@ -45,12 +53,12 @@ def main():
                     fired.append(pid)
                     details[pid] = [l.strip()[:400] for l in o.splitlines() if " FAIL " in l][:3]
         finally:
-            run(["git", "-C", "/repo", "worktree", "remove", "--force", wt])
             shutil.rmtree(wt, ignore_errors=True)
             shutil.rmtree(vd, ignore_errors=True)
         hit = meta["property"] in fired
         if not hit:
             missed += 1
+        results.append({"seed": name, "target": meta["property"], "reported_by": fired, "reported_by_target": hit})
         print(f"{'ok  ' if hit else 'MISS'} {name:45s} target={meta['property']} reported_by={','.join(fired) or '-'}")
         if "-v" in args:
             for pid, ls in details.items():
@@ -60,7 +68,9 @@ def main():
             meta["reported_by"], meta["reports"], meta["detected_by_target_property"] = fired, details, hit
             json.dump(meta, open(os.path.join(d, "meta.json"), "w"), indent=1)
     print("seeds not reported by their target property:", missed)
-    return 0
+    if json_out:
+        json.dump({"seeds_run": len(results), "missed": missed, "results": results}, open(json_out, "w"))
+    return 1 if (only_for and missed) else 0
 
 
 if __name__ == "__main__":
